@@ -155,8 +155,8 @@ def gen_case(rng, *, n_ops, listeners=True, waits=True, attach=False, weird=Fals
         if line.split()[1] in ('CLOSED', 'FAILED'):
             del live_s[sid]
         return oid, new
-    if via:
-        for cid in rng.sample(C_IDS, 2):
+    if via or rng.random() < 0.5:
+        for cid in rng.sample(C_IDS, 2 if via else 1):
             w.circs[cid] = {'status': 'BUILT', 'path': w.path(3)}
             case['snap_c'].append(w.circ_line(cid, 'BUILT'))
     # the snapshot: a few circuits and streams Tor already has
